@@ -35,6 +35,7 @@ MIN_REACH = {
     "reloads_by_same_constructor_call": {"quick": 150, "thorough": 1200},
     "identical_resows_accepted": {"quick": 5, "thorough": 20},
     "resows_after_a_cleaning_reap": {"quick": 20, "thorough": 50},
+    "resows_of_farmer_crops": {"quick": 8, "thorough": 25},
 }
 TIME_BUDGET = {"quick": 300, "thorough": 3000}
 
@@ -83,7 +84,7 @@ def cases(ctx):
                 val = rr.randint(1, n0)
                 n1 = max(1, n0 + rr.choice([0, 0, -1, 1, -2, 2, -(n0 // max(1, val)), -3, 3]))
                 yield {"resow": True, "n0": n0, "n1": n1, "mode": mode, "val": val, "reload": rr.random() < 0.5,
-                       "cases": rr.random() < 0.4}
+                       "cases": rr.random() < 0.4, "farmer": rr.random() < 0.4}
                 # second use of the same Crop object: sow, grow, reap (which deletes the crop), sow again
                 yield {"resow": True, "n0": n0, "n1": n0 if rr.random() < 0.7 else n1, "mode": mode, "val": val, "reload": False,
                        "cases": rr.random() < 0.4, "after_reap": True}
@@ -155,8 +156,17 @@ def run_resow(ctx, case):
         if case["cases"]:
             return {"mode": "cases", "names": ["p"], "cases": [{"p": i} for i in range(n)], "combos": [], "constants": {}, "via": "sow_cases"}
         return {"mode": "grid", "names": None, "cases": None, "combos": [["a", list(range(n))]], "constants": {}}
+    fextra = {}
     with quiet():
-        crop = xyzpy.Crop(fn=fn, name="c7", parent_dir=tmp, **{case["mode"]: case["val"]})
+        if case.get("farmer"):
+            # a farmer that brings its own constants and resources: every sow (also through a crop re-created from disk)
+            # must write them into each setting's keyword arguments
+            fextra = {"fc": 7, "res_r": "r0"}
+            crop = xyzpy.Crop(farmer=xyzpy.Runner(fn, "out", constants={"fc": 7}, resources={"res_r": "r0"}), name="c7", parent_dir=tmp,
+                              **{case["mode"]: case["val"]})
+            ctx.count("resows_of_farmer_crops")
+        else:
+            crop = xyzpy.Crop(fn=fn, name="c7", parent_dir=tmp, **{case["mode"]: case["val"]})
         cropkit.sow(crop, wl(case["n0"]))
         if case.get("after_reap"):
             crop.grow_missing()
@@ -166,7 +176,12 @@ def run_resow(ctx, case):
     err = None
     try:
         with quiet():
-            c2 = xyzpy.Crop(fn=fn, name="c7", parent_dir=tmp) if case["reload"] else crop
+            if not case["reload"]:
+                c2 = crop
+            elif case.get("farmer"):
+                c2 = xyzpy.Crop(name="c7", parent_dir=tmp)          # the farmer comes back from the crop's own settings file
+            else:
+                c2 = xyzpy.Crop(fn=fn, name="c7", parent_dir=tmp)
             cropkit.sow(c2, wl(case["n1"]))
     except Exception as e:
         err = e
@@ -185,7 +200,7 @@ def run_resow(ctx, case):
         ctx.count("resows_accepted")
         if case["n1"] == case["n0"]:
             ctx.count("identical_resows_accepted")
-        want = Counter(probe.canon(p) for p in cropkit.requested_settings(wl(case["n1"])))
+        want = Counter(probe.canon({**p, **fextra}) for p in cropkit.requested_settings(wl(case["n1"])))
         got = Counter()
         sizes = {}
         for i, p in files.items():
